@@ -71,6 +71,33 @@ func c19Ref(d *c19Dict, ip net.IP) bool {
 	return false
 }
 
+// c19Ambiguous: an IPv4 probe that lies (in 16-byte order) inside an IPv6 range but in no
+// IPv4 range or single: whether an IPv6 range "contains" IPv4 addresses is not stated, so
+// such probes are not judged.
+func c19Ambiguous(d *c19Dict, ip net.IP) bool {
+	if ip.To4() == nil {
+		return false
+	}
+	p := ip.To16()
+	inV4, inV6 := false, false
+	for _, s := range d.Singles {
+		if bytes.Equal(net.ParseIP(s).To16(), p) {
+			inV4 = true
+		}
+	}
+	for _, rg := range d.Ranges {
+		a, b := net.ParseIP(rg[0]), net.ParseIP(rg[1])
+		if bytes.Compare(a.To16(), p) <= 0 && bytes.Compare(p, b.To16()) <= 0 {
+			if a.To4() != nil {
+				inV4 = true
+			} else {
+				inV6 = true
+			}
+		}
+	}
+	return inV6 && !inV4
+}
+
 // c19Build loads the dictionary the way bfe's own loaders do
 // (insert everything, Sort, Update).
 func c19Build(d *c19Dict) (*ipdict.IPTable, error) {
@@ -144,6 +171,10 @@ func c19Check(r *vkit.Run, d *c19Dict, probes []net.IP) {
 	}
 	hits, miss := 0, 0
 	for _, p := range probes {
+		if c19Ambiguous(d, p) {
+			r.Count("ambiguous_v4_probe_inside_v6_range_skipped", 1)
+			continue
+		}
 		want := c19Ref(d, p)
 		var got bool
 		if r.Try(func() interface{} { return map[string]interface{}{"dict": d, "probe": p.String()} }, func() { got = t.Search(p) }) {
@@ -181,7 +212,7 @@ func c19Probes(u c19Universe) []net.IP {
 }
 
 func c19(r *vkit.Run) {
-	r.SetRule("dictionaries of 0-12 ranges + 0-6 singles drawn from 12-address universes (v4/v6, at 0, mid, all-ones) so overlap, nesting and adjacency are dense; probes = every universe address, +-1 neighbours and 4 far addresses; oracle = linear scan. Exhaustive part: every multiset of <=3 ranges (<=2 in quick for the 3-range class restricted) on an 8-address slice of each universe. Non-trivial = >=1 range and probes on both sides of membership; distinct = (ranges, singles) list")
+	r.SetRule("dictionaries of 0-12 ranges + 0-6 singles drawn from 12-address universes (v4/v6, at 0, mid, all-ones) so overlap, nesting and adjacency are dense; probes = every universe address, +-1 neighbours and 4 far addresses; oracle = linear scan. Exhaustive part: every multiset of <=3 ranges (<=2 in quick for the 3-range class restricted) on an 8-address slice of each universe. Plus mixed-family dictionaries (IPv4 and IPv6 ranges together, IPv6 ranges from :: and across the IPv4-mapped block; IPv4 probes that fall only inside an IPv6 range are not judged). Non-trivial = >=1 range and probes on both sides of membership; distinct = (ranges, singles) list")
 	if r.Replay != "" {
 		var w struct {
 			Dict  c19Dict `json:"dict"`
@@ -266,5 +297,49 @@ func c19(r *vkit.Run) {
 		sort.SliceStable(d.Singles, func(a, b int) bool { return false })
 		c19Check(r, &d, c19Probes(u))
 	})
+	// mixed-family dictionaries: IPv4 and IPv6 ranges in one table (as real trust/block
+	// tables have), including IPv6 ranges that start at :: or span the IPv4-mapped block
+	v6span := []string{"::", "::1", "::fffe:ffff:ffff", "::1:0:0:0", "2001:db8::", "2001:db8::ffff", "fd00::", "ffff::"}
+	v4pts := []string{"0.0.0.0", "0.0.0.1", "10.0.0.0", "10.0.0.255", "127.0.0.1", "192.168.1.1", "255.255.255.254", "255.255.255.255"}
+	var mixProbes []net.IP
+	for _, a := range append(append([]string{}, v6span...), v4pts...) {
+		ip := net.ParseIP(a)
+		mixProbes = append(mixProbes, ip, ipAdd(ip.To16(), 1))
+		if !ip.Equal(net.IPv6zero) {
+			mixProbes = append(mixProbes, ipAdd(ip.To16(), -1))
+		}
+	}
+	mixProbes = append(mixProbes, net.ParseIP("2001:db8::1"), net.ParseIP("::2"), net.ParseIP("fe80::1"), net.ParseIP("10.0.0.7"))
+	m := r.N(6000, 200000)
+	vkit.Parallel(m, 0, func(i int) {
+		g := r.Rng("mixed", i)
+		d := c19Dict{}
+		for k := g.Range(1, 5); k > 0; k-- {
+			a, b := g.Intn(len(v6span)), g.Intn(len(v6span))
+			x, y := net.ParseIP(v6span[a]), net.ParseIP(v6span[b])
+			if bytes.Compare(x, y) > 0 {
+				x, y = y, x
+			}
+			d.Ranges = append(d.Ranges, [2]string{x.String(), y.String()})
+		}
+		for k := g.Range(1, 4); k > 0; k-- {
+			a, b := g.Intn(len(v4pts)), g.Intn(len(v4pts))
+			x, y := net.ParseIP(v4pts[a]), net.ParseIP(v4pts[b])
+			if bytes.Compare(x.To16(), y.To16()) > 0 {
+				x, y = y, x
+			}
+			d.Ranges = append(d.Ranges, [2]string{x.String(), y.String()})
+		}
+		// shuffle insertion order
+		for k := len(d.Ranges) - 1; k > 0; k-- {
+			j := g.Intn(k + 1)
+			d.Ranges[k], d.Ranges[j] = d.Ranges[j], d.Ranges[k]
+		}
+		if g.Bool() {
+			d.Singles = append(d.Singles, g.PickS(v4pts), g.PickS(v6span))
+		}
+		c19Check(r, &d, mixProbes)
+	})
+	r.Count("mixed_family_dicts", int64(m))
 	r.SetExhaustive(false)
 }
